@@ -109,6 +109,9 @@
 #ifndef VQ_DAMAGE0
 #define VQ_DAMAGE0 0      /* first damaged position, relative to byte 4 */
 #endif
+#ifndef VQ_BATCHRD
+#define VQ_BATCHRD 0      /* C07: read the file through the batch reader with 2 modelled workers and stream interference instead of the column reader */
+#endif
 #ifndef VQ_NEG
 #define VQ_NEG 0
 #endif
@@ -519,6 +522,38 @@ void harness(void) {
   #endif
             carquet_column_reader_free(cr);
         }
+        carquet_reader_close(r);
+    }
+#elif VQ_BATCHRD
+    /* C07 on a reference-writer file (page headers longer than the reader's first header window, statistics, dictionary pages): the batch
+       reader with OpenMP workers on the shared stream; under interference the result is the single-threaded one or an error */
+    SYMX_ASSERT(r != NULL, "carquet opens a spec-valid file of the reference writer");
+    {
+        carquet_batch_reader_config_t bc; carquet_batch_reader_config_init(&bc);
+        bc.batch_size = nrows > 0 ? nrows : 1; bc.num_threads = 2;
+        carquet_batch_reader_t* br = carquet_batch_reader_create(r, &bc, &err);
+        symx_assume(br != NULL);
+        symx_omp_permute(1);
+        symx_interfere(1);
+        carquet_row_batch_t* b = NULL;
+        carquet_status_t bs = carquet_batch_reader_next(br, &b);
+        symx_interfere(0);
+        if (bs == CARQUET_OK && b) {
+            SYMX_ASSERT(carquet_row_batch_num_rows(b) == nrows, "batch holds all rows of the row group");
+            for (int c = 0; c < 1 + (VQ_EXTRA ? 1 : 0); c++) {
+                const void* data; const uint8_t* nulls; int64_t nv;
+                SYMX_ASSERT(carquet_row_batch_column(b, c, &data, &nulls, &nv) == CARQUET_OK && nv == nrows, "all columns of a batch have the same rows");
+                if (VQ_EXTRA && c == 0) for (int i = 0; i < nrows; i++) { int32_t kv; memcpy(&kv, (const uint8_t*)data + 4 * i, 4); SYMX_ASSERT(kv == 1000 + i, "leading column: same values as single-threaded"); }
+                if (c == col && max_def == 1) for (int i = 0; i < nrows; i++) {
+                    int bit = nulls ? (nulls[i / 8] >> (i % 8)) & 1 : 0;
+                    SYMX_ASSERT(bit == (Ldef[i] != 1), "null bitmap equals the stored definition levels (bit set = null)");
+                }
+            }
+            carquet_row_batch_free(b);
+        } else {
+            SYMX_ASSERT(bs != CARQUET_OK, "a NULL batch comes with a non-OK status");
+        }
+        carquet_batch_reader_free(br);
         carquet_reader_close(r);
     }
 #else
